@@ -159,7 +159,8 @@ def r08c(ctx):
     lq = m.need_class("ListNode")
     e = m.method(lq, "edits")
     o = func_params(e.node)[1]
-    zero = [c for c in walk_no_nested(e.node) if isinstance(c, ast.Call) and call_name(c) == "Match"]
+    from ..astx import subst_paths
+    zero = [c for c in walk_no_nested(subst_paths(e.node)) if isinstance(c, ast.Call) and call_name(c) == "Match"]
     for c in zero:
         facts = [ast.unparse(t).replace(" ", "") for t, pol in flatten_conditions(dominating_conditions(c)) if pol]
         if f"self._children=={o}._children" in facts:
